@@ -503,8 +503,8 @@ def analyze(ctx, want):
         ex, paths = run_fn(fn, F, BaseModel())
         for p in ret_paths(paths):
             c = p.calls(r"ScannerCache::get$")
-            ok = len(c) == 1 and S.mentions(ex.deref_val(p, c[0][3][1]), lambda x: x == ("field", ("sym", "self"), arg.split(".")[1]))
-            recv_ok = len(c) == 1 and S.mentions(c[0][4], lambda x: x == ("sym", "static:SCANNER_CACHE"))
+            ok = len(c) == 1 and len(c[0][3]) == 2 and S.mentions(ex.deref_val(p, c[0][3][1]), lambda x: x == ("field", ("sym", "self"), arg.split(".")[1]))
+            recv_ok = len(c) == 1 and c[0][4] is not None and S.mentions(c[0][4], lambda x: x == ("sym", "static:SCANNER_CACHE"))
             ob("C13.f", "build-goes-through-the-cache-with-own-modes:" + M.short_name(fn.name), ok and recv_ok,
                "ScannerCache::get(%s)" % (", ".join(S.vstr(a)[:70] for a in c[0][3]) if c else "none"), fn.loc())
             r = p.end[1]
